@@ -312,6 +312,21 @@ def err_shapes(tier):
                      "eh": f"EH_ERRH_1__{in_code(f0, ehm)}"}
             shapes.append([t0, t1, t2, route])
 
+    # ERR-XCL: a never-clone value moved into the error handler of a fallible pre-processing
+    # middleware and into a component that is skipped when that middleware fails (exclusive paths)
+    for f0 in ("P", "K"):
+        t0 = ctor_op(0, f0, "0", "s", "request_scoped", None)
+        for with_wrap, consumer in itertools.product([False, True], ["handler", "pre2", "wrap"]):
+            if consumer == "wrap" and not with_wrap:
+                continue
+            ops = [t0, {"k": "pre", "c": mw_id("pre", 1, True), "eh": f"EH_ERRPRE_1__{f0}V"}]
+            if consumer == "pre2":
+                ops.append({"k": "pre", "c": mw_id("pre", 2, False, in_code(f0, "v"))})
+            if with_wrap:
+                ops.append({"k": "wrap", "c": mw_id("wrap", 1, False, in_code(f0, "v") if consumer == "wrap" else "0")})
+            ops.append({"k": "route", "c": handler_id(0, [in_code(f0, "v") if consumer == "handler" else "0", "0", "0"])})
+            shapes.append(ops)
+
     # ERR-NEST: error handlers registered at different nesting levels than the failing components
     # (lookup walks from the component's blueprint to its ancestors; a specific handler anywhere on
     # that chain beats any fallback handler; the nearest one of each kind wins)
